@@ -36,7 +36,9 @@ CHECKS = {
            "every descendant; the fuel of both breadth-first traversals of the rule checker is proved adequate for every tree). Tie: Ok/Err + rule kind vs the model "
            "of the repaired checker. Oracle: Glob::new(e).is_ok() <=> an independent re-statement of the documented rules over expansions of the parse tree (two named "
            "known classes).",
-    'C07': "Proved (all inputs): the program of a combinator matches exactly the union of its patterns' programs; alternation of programs is union; grouping mode is "
+    'C07': "Proved (all inputs): at the level of the documented language an alternation is the union of its branches and a repetition is its body written out a "
+           "permitted number of times, also in place inside any surrounding concatenation (C07_alternation_composes_in_place, C07_repetition_composes_in_place); "
+           "the program of a combinator matches exactly the union of its patterns' programs; alternation of programs is union; grouping mode is "
            "irrelevant to the language. Tie: any() tree/program/is_match. Oracle: substitution / unrolling / wrapping families compared on the implementation.",
     'C08': "Proved: the display-suffix arithmetic (dropping the popped bytes leaves the suffix on a character boundary). Tie: every observable of partition() vs the model. "
            "Oracle: glob matches p <=> prefix joined with a remainder the postfix matches; postfix unrooted; re-partition identity; rebuild of the displayed postfix.",
